@@ -28,7 +28,7 @@ type World struct{}
 
 func (World) Name() string { return "buf" }
 
-const bufSize = 4096
+const bufSize = 4096 // frames that do not fit (boundary-length certificates) are skipped and counted
 
 // The property exempts the options of a LeaseSet2 / MetaLeaseSet and the
 // entry properties of a MetaLeaseSet ("the identity, key, lease and signature
